@@ -76,6 +76,16 @@ theorem goroutine_inventory :
     (("logql/logql_transpiler_v2/internal_planner/planner_generic.go:GenericPlanner.WrapProcess#1", "lit", true) ∈ ReadSide.goroutines) ∧
     (("service/tempoService.go:TempoService.OutputQuery#1", "lit", true) ∈ ReadSide.goroutines) := by decide
 
+/-- stops reading only when `strconv.ParseInt` fails on a string its producer formatted with `%d` -/
+def unreachableEarlyReturn : List String :=
+  ["traceql/transpiler/complex_request_processor.go:ComplexRequestProcessor.ProcessComplexReqIteration#1"]
+
+/-- **consumers_drain.** The hypothesis of `pipeline_terminates` in the source: every function that ranges over a
+    pipeline channel either never returns from inside the loop (it reads until close) or leaves a drain behind
+    (`drainEntries`, an empty `for range`) — the exporters, `WrapProcess`, `FixPeriodPlanner`, the forwarders. -/
+theorem consumers_drain :
+    ∀ c ∈ ReadSide.consumers, c.2.1 = true → c.2.2 = true ∨ c.1 ∈ unreachableEarlyReturn := by decide
+
 /-- handlers that answer without touching the database or speak another protocol (websocket tail) -/
 def staticHandlers : List String :=
   ["MiscController.Ready", "MiscController.Config", "MiscController.Rules", "MiscController.Metadata",
